@@ -5,7 +5,7 @@
 (* final_status / cycle_machine), frappy/modules.py Drivable.isBusy.                   *)
 (*                                                                                     *)
 (* Requirement automaton over what can be observed at the module's boundary:           *)
-(*   Started             start_machine() returned                                      *)
+(*   Started             start_machine() was called / has returned                     *)
 (*   StopReq(act, st)    stop_machine(st) returned; act = machine was active           *)
 (*   Final(st)           a state function called final_status(st) (and returns it)     *)
 (*   Hook(to, task, reason)  the machine performs a transition (to = "none": the run   *)
